@@ -174,15 +174,16 @@ def remove_frozen(tree):
 
 
 def _squash(s):
-    """remove whitespace outside quoted names / strings"""
-    out, q = [], None
+    """remove whitespace outside double-quoted names (blanks inside a quoted *class string* do not count:
+    Cassandra's TypeParser skips them)"""
+    out, q = [], False
     for ch in s:
         if q:
             out.append(ch)
-            if ch == q:
-                q = None
-        elif ch in "\"'":
-            q = ch
+            if ch == '"':
+                q = False
+        elif ch == '"':
+            q = True
             out.append(ch)
         elif not ch.isspace():
             out.append(ch)
@@ -421,7 +422,7 @@ def interpret_descriptor(case, ctx):
     try:
         parsed = C.lookup_casstype(text)
     except Exception as e:  # noqa -- attributed structurally below
-        cause = _blame(tree)
+        cause = _blame(tree, e)
         ctx.fail(["C28.lookup", cause, "raises", type(e).__name__], "lookup_casstype(%r) raised %s: %s" % (text[:300], type(e).__name__, str(e)[:200]))
         return
     r = _structure(parsed, tree)
@@ -463,21 +464,14 @@ def interpret_descriptor(case, ctx):
         _codec(case, ctx, parsed)
 
 
-def _blame(tree):
-    """which generated feature a parse failure is attributed to (deterministic; most specific first)"""
-    for x in _walk(tree):
-        if x["t"] == "udt":
-            c = _name_class(x["name"])
-            if c == "non-ascii":
-                return "udt-name:non-ascii"
-    for x in _walk(tree):
-        if x["t"] == "udt":
-            for fn, _ in x["fields"]:
-                if not fn.isascii():
-                    return "udt-field:non-ascii"
-    for x in _walk(tree):
-        if x["t"] == "udt" and _hex(x["name"]).isdigit():
-            return "udt-name:digit-hex"
+def _blame(tree, exc):
+    """which generated feature a parse failure is attributed to (deterministic function of case + exception)"""
+    msg = str(exc)
+    udts = [x for x in _walk(tree) if x["t"] == "udt"]
+    if "codec can't decode" in msg and any(not n.isascii() for x in udts for n in [x["name"]] + [f[0] for f in x["fields"]]):
+        return "udt-names:non-ascii"      # type and field names go through the same decoder
+    if "'int' object" in msg and any(_hex(x["name"]).isdigit() for x in udts):
+        return "udt-name:digit-hex"
     for x in _walk(tree):
         if x["t"] in ("vector", "udt", "dynamic", "composite", "custom"):
             return x["t"]
@@ -527,7 +521,7 @@ def s_style():
 
 
 def _names():
-    name = st.one_of(st.sampled_from(_PLAIN_NAMES), st.sampled_from(_PLAIN_NAMES), st.sampled_from(_PLAIN_NAMES),
+    name = st.one_of(st.sampled_from(_PLAIN_NAMES), st.sampled_from(_PLAIN_NAMES),
                      st.sampled_from(_QUOTE_NAMES), st.sampled_from(_HARD_NAMES))
     fname = st.one_of(st.sampled_from(_FIELD_NAMES[:6]), st.sampled_from(_FIELD_NAMES))
     return st.lists(name, min_size=1, max_size=4), st.lists(fname, min_size=1, max_size=6)
@@ -538,9 +532,27 @@ def _max_depth():
     return 4 if os.environ.get("VERIF_TIER") == "thorough" else 3
 
 
+def s_udt_tree():
+    """a UDT with drawn names at the top, inside a collection or inside another UDT (keeps the name classes populated)"""
+    scalar = st.sampled_from(sorted(k for k in _CASS if k != "counter")).map(lambda n: {"t": n})
+    small = st.one_of(scalar, scalar, scalar.map(lambda x: {"t": "list", "of": x}),
+                      st.tuples(scalar, scalar).map(lambda kv: {"t": "frozen", "of": {"t": "map", "k": {"t": "text"}, "v": kv[1]}}))
+
+    def udt(fields):
+        return {"t": "udt", "ks": "ks", "name": "x", "fields": [["f", f] for f in fields]}
+    inner = st.lists(small, min_size=1, max_size=3).map(udt)
+    outer = st.tuples(inner, st.lists(small, min_size=0, max_size=2)).map(lambda p: udt([{"t": "frozen", "of": p[0]}] + p[1]))
+    u = st.one_of(inner, inner, outer)
+    return st.one_of(u, u.map(lambda x: {"t": "list", "of": {"t": "frozen", "of": x}}),
+                     u.map(lambda x: {"t": "map", "k": {"t": "int"}, "v": {"t": "frozen", "of": x}}),
+                     u.map(lambda x: {"t": "frozen", "of": x}), u.map(lambda x: {"t": "tuple", "of": [{"t": "int"}, x]}),
+                     u.map(lambda x: {"t": "vector", "of": x, "dim": 2}))
+
+
 def s_tree():
     names, fnames = _names()
-    return st.builds(_rename, V.type_trees(max_depth=_max_depth()), names, fnames)
+    base = st.one_of(V.type_trees(max_depth=_max_depth()), V.type_trees(max_depth=_max_depth()), s_udt_tree())
+    return st.builds(_rename, base, names, fnames)
 
 
 def s_descriptor_case():
@@ -640,8 +652,8 @@ def s_cqlstring_case():
     names, fnames = _names()
     tricky = st.sampled_from(["frozenx", "frozen_t", "xfrozen", "Frozen", "frozen x"])   # UDT names around the word
     names2 = st.lists(st.one_of(tricky, st.sampled_from(_PLAIN_NAMES)), min_size=1, max_size=3)
-    t1 = st.builds(_rename, V.type_trees(max_depth=_max_depth()), names, fnames)
-    t2 = st.builds(_rename, V.type_trees(max_depth=2), names2, fnames)
+    t1 = st.builds(_rename, st.one_of(V.type_trees(max_depth=_max_depth()), s_udt_tree()), names, fnames)
+    t2 = st.builds(_rename, st.one_of(V.type_trees(max_depth=2), s_udt_tree()), names2, fnames)
     tree = st.one_of(t1, t1, t1, t2).map(_no_reversed)
     return st.fixed_dictionaries({"tree": tree, "ws": st.one_of(st.just(-1), st.just(0), st.integers(1, 2 ** 24 - 1))})
 
